@@ -163,6 +163,10 @@ impl<C: Configuration> IngredientImpl<C> {
                 })
                 .0
         });
+        #[cfg(salsa_rs_salsa_verif)]
+        crate::verif_life::emit(|| {
+            format!("snew 0 {} {}", id.index(), self.ingredient_index.as_u32())
+        });
 
         FromIdWithDb::from_id(id, zalsa)
     }
@@ -209,6 +213,8 @@ impl<C: Configuration> IngredientImpl<C> {
             runtime.report_tracked_write(*field_durability);
         }
         *field_durability = durability.unwrap_or(*field_durability);
+        #[cfg(salsa_rs_salsa_verif)]
+        crate::verif_life::emit(|| format!("sset {}", id.index()));
 
         setter(&mut data.fields)
     }
@@ -244,6 +250,8 @@ impl<C: Configuration> IngredientImpl<C> {
             durability,
             revision,
         );
+        #[cfg(salsa_rs_salsa_verif)]
+        crate::verif_life::emit(|| format!("fhandout 0 {}", id.index()));
         &value.fields
     }
 
